@@ -350,10 +350,12 @@ func (t *sseClientTransport) handleResponse(data string) {
 	// Get the response ID as a string.
 	idStr := fmt.Sprintf("%v", response.ID)
 
-	// Find the corresponding response channel.
+	// Find the corresponding response channel. The read lock is held until the
+	// response has been handed over: close() closes the pending channels under the
+	// write lock, and a send on a closed channel panics.
 	t.responsesMu.RLock()
+	defer t.responsesMu.RUnlock()
 	responseChan, ok := t.responses[idStr]
-	t.responsesMu.RUnlock()
 
 	if !ok {
 		if t.logger != nil {
